@@ -40,6 +40,7 @@ type Case struct {
 	Strict    bool        `json:",omitempty"` // replay with the strict (RFC 6265 cookie-octet) client model
 	GoPath    string      `json:",omitempty"` // path of the redirecting handler ("" = /go)
 	NextRedir bool        `json:",omitempty"` // the consuming handler answers with a redirect of its own (without messages)
+	NextChain bool        `json:",omitempty"` // ... and that redirect attaches a message of its own (a chain of flash redirects)
 	NextPath  string      `json:",omitempty"` // path of the consuming handler ("" = /next); nested paths have a default cookie path other than "/"
 }
 
@@ -126,9 +127,23 @@ func newApp(c Case, s *seen) *fiber.App {
 		sort.Strings(s.msgs)
 		sort.Strings(s.inputs)
 		if c.NextRedir {
-			return ctx.Redirect().To("/done") // e.g. a moved page or a login wall: consumes the messages, attaches none
+			r := ctx.Redirect() // e.g. a moved page or a login wall: consumes the messages
+			if c.NextChain {
+				r.With("chain", "B", '!')
+			}
+			return r.To("/done")
 		}
 		return ctx.SendString("next")
+	})
+	app.Get("/done", func(ctx fiber.Ctx) error {
+		s.msgs, s.inputs = nil, nil
+		for _, m := range ctx.Redirect().Messages() {
+			s.msgs = append(s.msgs, fmt.Sprintf("%q=%q@%d", m.Key, m.Value, m.Level))
+		}
+		for _, in := range ctx.Redirect().OldInputs() {
+			s.inputs = append(s.inputs, fmt.Sprintf("%q=%q", in.Key, in.Value))
+		}
+		return ctx.SendString("done")
 	})
 	return app
 }
@@ -287,6 +302,27 @@ func check(c Case) vk.Verdict {
 	if strings.Join(s.inputs, "|") != strings.Join(wantInputs, "|") {
 		return vk.Failf("handler of the next request sees old input %v, want %v (cookie %q)", s.inputs, wantInputs, val)
 	}
+	if c.NextRedir && c.NextChain {
+		// the consuming response issues a flash cookie of its own (same name and path: it replaces the consumed one)
+		val2, present2, expired2 := flashCookie(out2)
+		if !present2 || expired2 || len(val2) == 0 {
+			return vk.Failf("the handler of %s consumed the messages and redirected with a message of its own, but its response carries no live flash cookie (present=%v expired=%v): the new message is lost", c.nextPath(), present2, expired2)
+		}
+		if held, issued := cookiePath(out1, c.goPath()), cookiePath(out2, c.nextPath()); held != issued {
+			return vk.Failf("the chained flash cookie is issued for path %q, the consumed one is held under %q: the client keeps both", issued, held)
+		}
+		out3, err := vk.Wire(app, vk.Req("GET", "/done", [][2]string{{"Cookie", "fiber_flash=" + string(val2)}}, nil))
+		if err != nil {
+			return vk.Failf("request 3: %v", err)
+		}
+		if want := []string{`"chain"="B"@33`}; strings.Join(s.msgs, "|") != strings.Join(want, "|") || len(s.inputs) != 0 {
+			return vk.Failf("second hop of a flash chain: the handler of /done sees %v %v, want %v (first hop delivered %v)", s.msgs, s.inputs, want, wantMsgs)
+		}
+		if _, p3, e3 := flashCookie(out3); !p3 || !e3 {
+			return vk.Failf("second hop of a flash chain: the consuming response does not expire the cookie (present=%v expired=%v)", p3, e3)
+		}
+		return vk.Verdict{NonTrivial: true, Classes: []string{"replayed", "flash-chain"}}
+	}
 	// response 2 must expire the cookie so that a conforming client presents the messages exactly once
 	_, present2, expired2 := flashCookie(out2)
 	if present2 && expired2 {
@@ -412,6 +448,13 @@ func checkInProcess(c Case, wantMsgs, wantInputs []string) vk.Verdict {
 	fc := fasthttp.AcquireCookie()
 	defer fasthttp.ReleaseCookie(fc)
 	fc.SetKey("fiber_flash")
+	if c.NextRedir && c.NextChain {
+		// the consuming response issues the next flash cookie of the chain instead of expiring the name
+		if !r2.Response.Header.Cookie(fc) || !bytes.Contains(fc.Value(), []byte("chain")) || (!fc.Expire().IsZero() && fc.Expire().Before(time.Now()) && !fc.Expire().Equal(fasthttp.CookieExpireUnlimited)) {
+			return vk.Failf("in process: the consuming handler redirected with a message of its own, but its response carries no live flash cookie with it (%q)", r2.Response.Header.PeekCookie("fiber_flash"))
+		}
+		return vk.Verdict{NonTrivial: true, Classes: []string{"delivered-in-process(C12-a)", "flash-chain"}}
+	}
 	if !r2.Response.Header.Cookie(fc) || !(fc.Expire().Before(time.Now()) && !fc.Expire().Equal(fasthttp.CookieExpireUnlimited) || fc.MaxAge() < 0) {
 		return vk.Failf("in process: the response that consumed the flash cookie does not expire it (%q)", r2.Response.Header.PeekCookie("fiber_flash"))
 	}
@@ -460,8 +503,8 @@ func genStr(t *rapid.T, label string) string {
 
 func genCase(t *rapid.T) Case {
 	c := Case{Status: rapid.SampledFrom([]int{0, 0, 301, 303, 307}).Draw(t, "status"), Strict: rapid.IntRange(0, 9).Draw(t, "strict") == 0,
-		NextRedir: rapid.IntRange(0, 3).Draw(t, "nextredir") == 0,
-		GoPath:    rapid.SampledFrom([]string{"", "", "/area/go", "/a/b/c/go"}).Draw(t, "gopath"), NextPath: rapid.SampledFrom([]string{"", "", "/app/next/deep", "/users/42/edit"}).Draw(t, "nextpath")}
+		NextRedir: rapid.IntRange(0, 3).Draw(t, "nextredir") == 0, NextChain: rapid.Bool().Draw(t, "nextchain"),
+		GoPath: rapid.SampledFrom([]string{"", "", "/area/go", "/a/b/c/go"}).Draw(t, "gopath"), NextPath: rapid.SampledFrom([]string{"", "", "/app/next/deep", "/users/42/edit"}).Draw(t, "nextpath")}
 	n := rapid.IntRange(0, 5).Draw(t, "nmsgs")
 	for i := 0; i < n; i++ {
 		m := Msg{K: genStr(t, "key"), V: genStr(t, "val")}
